@@ -785,8 +785,11 @@ void var_opt_sketch<T, A>::update(O&& item, double weight, bool mark) {
     update_warmup_phase(std::forward<O>(item), weight, mark);
   } else {
     // sketch is in estimation mode so we can make the following check,
-    // although very conservative to check every time
-    if ((h_ != 0) && (peek_min() < get_tau()))
+    // although very conservative to check every time.
+    // Written as the same floating-point test that ended grow_candidate_set(), so that an exact tie
+    // (lightest H item == tau, common when a union feeds equal-weight reservoir items) is not
+    // misjudged by the round-off of the division in get_tau()
+    if ((h_ != 0) && ((peek_min() * (r_ + 1)) < (total_wt_r_ + peek_min())))
       throw std::logic_error("sketch not in valid estimation mode");
 
     // what tau would be if deletion candidates turn out to be R plus the new item
